@@ -143,6 +143,9 @@ func labelName(i int64) string {
 	if i%4 == 1 {
 		return fmt.Sprintf("l%%d_100%%_%02d", i) // a name with format verbs in it
 	}
+	if i%8 == 4 {
+		return fmt.Sprintf("a_rather_long_label_name_%02d", i)
+	}
 	if i%4 == 2 {
 		return fmt.Sprintf("lbl_%02d:", i) // a name that ends in a colon (a different name from the one without)
 	}
@@ -597,6 +600,10 @@ func genComment(r *sim.Rand) sim.Op {
 	n := sim.PickInt(r, 0, 1, 5, 20, 60, 110, 119, 120, 121, 200, 300)
 	if r.Chance(1, 2) {
 		n = r.Intn(40)
+	} else if r.Chance(1, 30) {
+		n = sim.PickInt(r, 1017, 1018, 1021, 1024, 4095, 4096, 5000) // longer than any internal block
+	} else if r.Chance(1, 500) {
+		n = sim.PickInt(r, 65535, 65536, 70000)
 	}
 	b := make([]byte, n)
 	for i := range b {
